@@ -5,9 +5,9 @@
    correspondence.  VTK's conventions (cell type names, quadratic-tetra edge
    order) and femio/FrontISTR's tet2 edge order are stated definitions (S) in
    Model.v. *)
-From Coq Require Import String List ZArith Bool Arith.
+From Coq Require Import String List ZArith Bool Arith Permutation.
 Import ListNotations.
-From FV.C06 Require Import Model Proofs.
+From FV.C06 Require Import Model Proofs Spec Refine.
 From FV.C06.gen Require Import VtkTables.
 Open Scope string_scope.
 
@@ -164,3 +164,85 @@ Example C06_wf_example :
         [("tet2", [(5, [10; 3; 77; 5; 42; 8; 100; 2; 9; 61])]); ("line", [(30, [9; 61])]);
          ("hex", [(11, [10; 3; 77; 5; 42; 8; 100; 2])])]%Z []) = true.
 Proof. vm_compute. reflexivity. Qed.
+
+(* ------------------------------------------------------------------ round 5: refinement *)
+(* REFINEMENT.  Spec.spec_cells is the abstract statement of the export: per element block (in
+   ELEMENT_TYPES order) the VTK type name and per element the COORDINATES of the nodes it names
+   (looked up by node id in the mesh as a finite map), in VTK node order - no storage position
+   occurs in it.  What a reader obtains by resolving every cell corner through the file's own
+   point list (Spec.decode_cells) is exactly that, for every mesh on which the export succeeds. *)
+Theorem C06_cells_refine_spec :
+  forall (P V : Type) (m : mesh P V) pts cells pd,
+    to_vtk m = Some (pts, cells, pd) -> spec_cells m = Some (decode_cells pts cells).
+Proof. exact cells_refine. Qed.
+
+(* every corner of every exported cell indexes an existing point *)
+Theorem C06_cells_in_range :
+  forall (P V : Type) (m : mesh P V) pts cells pd,
+    to_vtk m = Some (pts, cells, pd) ->
+    forall vt cs c q, In (vt, cs) cells -> In c cs -> In q c -> (q < length pts)%nat.
+Proof. exact cells_in_range. Qed.
+
+(* the storage order of the nodes is irrelevant to the mesh the file describes: two meshes with
+   the same elements whose node tables are permutations of one another (distinct ids) export
+   cells that resolve to the same coordinates, block by block, element by element, corner by
+   corner *)
+Theorem C06_storage_order_irrelevant :
+  forall (P V : Type) (m m' : mesh P V) pts cells pd pts' cells' pd',
+    Permutation (nodes m) (nodes m') -> NoDup (node_ids m) -> blocks m = blocks m' ->
+    to_vtk m = Some (pts, cells, pd) -> to_vtk m' = Some (pts', cells', pd') ->
+    decode_cells pts cells = decode_cells pts' cells'.
+Proof. exact storage_order_irrelevant. Qed.
+
+(* REFINEMENT of the point data (by-id export): the (point, row) pairs of a variable are, node by
+   node, the node's coordinates with the value the variable holds for that node's id *)
+Theorem C06_point_data_refines_spec :
+  forall (P V : Type) (m : mesh P V) pts cells pd,
+    point_data_by_id = true -> point_data_current_values = true ->
+    to_vtk m = Some (pts, cells, pd) ->
+    forall v, In v (nodal m) -> (v_rank v <= 2)%nat ->
+      exists rows, In (v_name v, rows) pd /\ length rows = length pts /\
+        map (fun pr => (fst pr, Some (snd pr))) (decode_rows pts rows) = spec_rows (nodes m) v.
+Proof. intros P V m pts cells pd Hb _. exact (point_data_refines P V m pts cells pd Hb). Qed.
+
+(* ... hence independent of the storage order of the nodes and of the variable's own id order *)
+Theorem C06_point_data_order_irrelevant :
+  forall (P V : Type) (m m' : mesh P V) pts cells pd pts' cells' pd',
+    point_data_by_id = true -> point_data_current_values = true ->
+    Permutation (nodes m) (nodes m') -> nodal m = nodal m' ->
+    to_vtk m = Some (pts, cells, pd) -> to_vtk m' = Some (pts', cells', pd') ->
+    forall v, In v (nodal m) -> (v_rank v <= 2)%nat ->
+      exists rows rows', In (v_name v, rows) pd /\ In (v_name v, rows') pd' /\
+        Permutation (decode_rows pts rows) (decode_rows pts' rows').
+Proof.
+  intros P V m m' pts cells pd pts' cells' pd' Hb _.
+  exact (point_data_order_irrelevant P V m m' pts cells pd pts' cells' pd' Hb).
+Qed.
+
+(* non-vacuity: a mixed mesh (tet2 + line, unsorted sparse ids, a variable stored in another id
+   order) exports; its decoded cells are the expected coordinates; the same mesh with the node
+   table stored in another order exports different indices but the same decoded cells *)
+Definition ex_nodes : list (Z * Z) :=
+  [(10, 100); (3, 30); (77, 770); (5, 50); (42, 420); (8, 80); (100, 1000); (2, 20); (9, 90); (61, 610)]%Z.
+Definition ex_mesh (ns : list (Z * Z)) : mesh Z Z :=
+  mkmesh ns [("tet2", [(5, [10; 3; 77; 5; 42; 8; 100; 2; 9; 61])]); ("line", [(30, [9; 61])])]%Z
+         [mkvar "t" 2 (rev (map fst ex_nodes)) (map (fun n => [fst n]) (rev ex_nodes))].
+Example C06_refine_example :
+  wf (ex_mesh ex_nodes) = true /\ wf (ex_mesh (rev ex_nodes)) = true /\
+  (exists pts cells pd pts' cells' pd',
+     to_vtk (ex_mesh ex_nodes) = Some (pts, cells, pd) /\
+     to_vtk (ex_mesh (rev ex_nodes)) = Some (pts', cells', pd') /\
+     cells <> cells' /\
+     decode_cells pts cells = decode_cells pts' cells' /\
+     decode_cells pts cells =
+       [("line", [[Some 90; Some 610]]);
+        ("tetra10", [[Some 100; Some 30; Some 770; Some 50; Some 1000; Some 420; Some 80;
+                      Some 20; Some 90; Some 610]])]%Z /\
+     In ("t", map (fun n => [fst n]) ex_nodes) pd /\
+     In ("t", map (fun n => [fst n]) (rev ex_nodes)) pd').
+Proof.
+  split; [vm_compute; reflexivity|]. split; [vm_compute; reflexivity|].
+  do 6 eexists. split; [vm_compute; reflexivity|]. split; [vm_compute; reflexivity|].
+  split; [vm_compute; discriminate|]. split; [vm_compute; reflexivity|].
+  split; [vm_compute; reflexivity|]. split; vm_compute; left; reflexivity.
+Qed.
